@@ -129,7 +129,6 @@ type Exprer struct {
 	selfAlloc *ssa.Alloc
 }
 
-
 func (p *Program) Ex(fn *ssa.Function) *Exprer {
 	if x := p.exprers[fn]; x != nil {
 		return x
